@@ -39,6 +39,8 @@ func main() {
 		os.Exit(cmdSelftest(os.Args[2:]))
 	case "replay":
 		os.Exit(cmdReplay(os.Args[2:]))
+	case "triage":
+		os.Exit(cmdTriage(os.Args[2:]))
 	default:
 		fmt.Fprintln(os.Stderr, "unknown command", os.Args[1])
 		os.Exit(2)
@@ -173,4 +175,38 @@ func cmdEffects(args []string) {
 			}
 		}
 	}
+}
+
+// cmdTriage: gvc triage Cxx  -- runs every claimed obligation of the property and prints the ones that do not
+// discharge (maintenance aid for unclaimed.json / known_findings.json; it decides nothing).
+func cmdTriage(args []string) int {
+	if len(args) < 1 {
+		fmt.Println("usage: gvc triage Cxx [timeout]")
+		return 2
+	}
+	P, DB, err := loadAll(nil)
+	if err != nil {
+		fmt.Println("load error:", err)
+		return 2
+	}
+	wd := workDir()
+	defer os.RemoveAll(wd)
+	timeout := 8
+	if len(args) > 1 {
+		fmt.Sscanf(args[1], "%d", &timeout)
+	}
+	pr := runProperty(P, DB, args[0], timeout, 0, false, wd, loadKnownFindings(), loadUnclaimed())
+	for k, e := range pr.FnErrors {
+		fmt.Printf("ERROR %s: %s\n", k, e)
+	}
+	seen := map[string]bool{}
+	for _, oc := range pr.Outcomes {
+		if oc.OK || seen[oc.O.Base()] {
+			continue
+		}
+		seen[oc.O.Base()] = true
+		fmt.Printf("FAIL\t%s\t%s\t%s\t%s\n", oc.O.Base(), oc.O.Kind, oc.Res.Status, oc.O.Pos)
+	}
+	fmt.Printf("%d functions, %d claimed obligations, %d unclaimed\n", len(pr.Funcs), len(pr.Outcomes), len(pr.Unclaimed))
+	return 0
 }
